@@ -213,6 +213,11 @@ class EngineBase:
             return z3.IntVal(v)
         if isinstance(v, TupleV):
             return self.tuple_code(v)
+        if isinstance(v, Record) and set(v.items) == {'time', 'actor', 'observation', 'event', 'resource'}:
+            # an event record {time, actor, observation, event, resource}: injective code
+            f = z3.Function('mk_event', R, I, I, I, I, I)
+            return f(self.num(v.items['time']), self.as_int_term(v.items['actor']), self.as_int_term(v.items['observation']),
+                     self.as_int_term(v.items['event']), self.as_int_term(v.items['resource']))
         return self.lift(v).t
 
     # tuples inside containers: injective pairing via uninterpreted functions with ground projection facts
@@ -432,6 +437,7 @@ class EngineBase:
         else:
             l.cnt = z3.Store(l.cnt, t, z3.Select(l.cnt, t) + 1)
             l.n = l.n + 1
+            l.last = t
 
     def note_elem(self, l, v):
         if l.elem is None:
@@ -457,12 +463,16 @@ class EngineBase:
         self.bag_facts(l)
         return z3.Select(l.cnt, self.as_int_term(v)) > 0
 
-    def list_pick(self, l, node, what, remove=False):
-        """an arbitrary element (l[i], l[0], l[-1], pop()): order is abstracted"""
+    def list_pick(self, l, node, what, remove=False, want_last=False):
+        """an arbitrary element (l[i], l[0], l[-1], pop()): order is abstracted, except that the element appended last
+        is remembered until the next other mutation"""
         self.bag_facts(l)
         self.check_or_raise(l.n > 0, 'IndexError', node, what)
-        e = z3.Int(fresh_name('pick'))
-        self.st.assume(z3.Select(l.cnt, e) > 0)
+        if want_last and getattr(l, 'last', None) is not None:
+            e = l.last
+        else:
+            e = z3.Int(fresh_name('pick'))
+            self.st.assume(z3.Select(l.cnt, e) > 0)
         if remove:
             if l.frozen:
                 raise OutOfSubset("pop on frozen list")
